@@ -86,3 +86,94 @@ package items
 //@     invariant [member] imp(actionItem != nil, some(w, 0, range_i1, this.Items[w] == actionItem && matches(this.Items[w])))
 //@     invariant [literal] imp(some(j, 0, range_i1, matches(this.Items[j]) && isLiteral(this.lexPart, this.Items[j])), actionItem != nil && isLiteral(this.lexPart, actionItem))
 //@     invariant [earliest] imp(actionItem != nil && !some(j, 0, range_i1, matches(this.Items[j]) && isLiteral(this.lexPart, this.Items[j])), all(j, 0, range_i1, imp(matches(this.Items[j]), actionItem.ProdIndex <= this.Items[j].ProdIndex)))
+//@
+//@ # ---- item lists of the subset construction (C01): identity of a basic item is its hash key ----
+//@ spec keyed(it *Item) bool = it != nil && it.hashKey != ""
+//@ spec listKeyed(l ItemList) bool = all(j, 0, len(l), keyed(l[j]))
+//@ spec inList(l ItemList, it *Item) bool = some(j, 0, len(l), l[j].hashKey == it.hashKey)
+//@
+//@ func (*Item).Equal
+//@   prop C01
+//@   requires [this] this != nil && that != nil
+//@   panics [nil-hashkey] this.hashKey == "" || that.hashKey == ""
+//@   ensures [value] result == (this.hashKey == that.hashKey)
+//@   assigns nothing
+//@
+//@ func (ItemList).Contain
+//@   prop C01
+//@   requires [keyed] listKeyed(this) && keyed(that)
+//@   ensures [value] result == inList(this, that)
+//@   assigns nothing
+//@   loop 1
+//@     invariant [none-so-far] all(j, 0, range_i1, this[j].hashKey != that.hashKey)
+//@
+//@ func (ItemList).indexOf
+//@   prop C01
+//@   requires [keyed] listKeyed(this) && keyed(that)
+//@   ensures [found] imp(result >= 0, result < len(this) && this[result].hashKey == that.hashKey && all(j, 0, result, this[j].hashKey != that.hashKey))
+//@   ensures [none] imp(result < 0, result == -1 && !inList(this, that))
+//@   assigns nothing
+//@   loop 1
+//@     invariant [none-so-far] all(j, 0, range_i1, this[j].hashKey != that.hashKey)
+//@
+//@ # two lists are equal when they have the same length and every item of the first is in the second
+//@ func (ItemList).Equal
+//@   prop C01
+//@   requires [keyed] listKeyed(this) && listKeyed(that)
+//@   ensures [value] result == (len(this) == len(that) && all(j, 0, len(this), inList(that, this[j])))
+//@   assigns nothing
+//@   loop 1
+//@     invariant [all-so-far] all(j, 0, range_i1, inList(that, this[j]))
+//@
+//@ func (ItemList).ContainShift
+//@   prop C01
+//@   requires [items] all(j, 0, len(this), this[j] != nil)
+//@   ensures [value] result == some(j, 0, len(this), this[j].Id == id && !ReduceF(this[j]))
+//@   assigns nothing
+//@   loop 1
+//@     invariant [none-so-far] all(j, 0, range_i1, !(this[j].Id == id && !ReduceF(this[j])))
+//@
+//@ # the result lists the receiver's items, in order, followed by those of the arguments that were not yet listed
+//@ func (ItemList).AddNoDuplicate
+//@   prop C01
+//@   requires [keyed] listKeyed(this) && listKeyed(items)
+//@   # (the arguments are not a view of the receiver's own backing array: an append into spare capacity would overwrite them)
+//@   requires [noalias] arr(items) != arr(this) || len(items) == 0
+//@   ensures [keyed] listKeyed(result)
+//@   ensures [prefix] len(result) >= len(this) && all(j, 0, len(this), result[j] == this[j])
+//@   ensures [added] all(k, 0, len(items), inList(result, items[k]))
+//@   ensures [only] all(j, len(this), len(result), some(k, 0, len(items), result[j] == items[k]))
+//@   ensures [fresh-keys] all(j, len(this), len(result), all(i, 0, j, result[i].hashKey != result[j].hashKey))
+//@   assigns elems(this)
+//@   loop 1
+//@     invariant [keyed] listKeyed(newList) && listKeyed(items)
+//@     invariant [prefix] len(newList) >= len(this) && all(j, 0, len(this), newList[j] == this[j])
+//@     invariant [added] all(k, 0, range_i1, inList(newList, items[k]))
+//@     invariant [only] all(j, len(this), len(newList), some(k, 0, range_i1, newList[j] == items[k]))
+//@     invariant [fresh-keys] all(j, len(this), len(newList), all(i, 0, j, newList[i].hashKey != newList[j].hashKey))
+//@     invariant [arr] (arr(newList) == arr(this) && off(newList) == off(this)) || arr(newList) >= old(alloc())
+//@     invariant [noalias] arr(items) != arr(newList) || len(items) == 0
+//@
+//@ func (*ItemSet).Contain
+//@   prop C01
+//@   requires [keyed] this != nil && listKeyed(this.Items) && keyed(that)
+//@   ensures [value] result == inList(this.Items, that)
+//@   assigns nothing
+//@
+//@ func (*ItemSet).Equal
+//@   prop C01
+//@   requires [keyed] this != nil && listKeyed(this.Items) && listKeyed(items)
+//@   ensures [value] result == (len(this.Items) == len(items) && all(j, 0, len(this.Items), inList(items, this.Items[j])))
+//@   assigns nothing
+//@
+//@ func (*ItemSet).Empty
+//@   prop C01
+//@   requires [this] this != nil
+//@   ensures [value] result == (len(this.Items) == 0)
+//@   assigns nothing
+//@
+//@ func (*ItemSet).Size
+//@   prop C01
+//@   requires [this] this != nil
+//@   ensures [value] result == len(this.Items)
+//@   assigns nothing
